@@ -193,6 +193,7 @@ proof fn lemma_payload_of_view(c: Seq<u8>)
 
 proof fn lemma_hexval_lt16(c: u8) requires is_hex(c) ensures hex_val(c) < 16 {}
 
+//@ifndef io
 pub proof fn lemma_substitution(f: FrameV, i: int, c2: u8)
     requires f.data.len() <= 255, 0 <= i < enc(f).len(), c2 != enc(f)[i]
     ensures dec(enc(f).update(i, c2)) == DecV::Ok(f) || !(dec(enc(f).update(i, c2)) is Ok)
@@ -290,6 +291,7 @@ pub proof fn lemma_substitution(f: FrameV, i: int, c2: u8)
         }
     }
 }
+//@endif
 
 // ---- end codec_spec.rs ----
 // ---- additional lemmas for C01 / C03 ----
